@@ -9,7 +9,7 @@ import random
 from collections import Counter
 
 from . import targets
-from .c18 import snapshot
+from .snap import snapshot
 from .control import ControlWorld, gen_command, public_members
 
 
@@ -25,6 +25,12 @@ class World(ControlWorld):
         self.sc = sc
         self.programs = 0
         self.triggers = set()
+
+    def violate(self, clause, msg):
+        if self.sc.get("as_c15"):
+            # the C15 'session' family: the size is read and assigned through control commands
+            clause = "C15.reports" if "pool-size" in msg or "pool_size" in msg else "C15.no_admission_above"
+        super().violate(clause, msg)
 
     def make_pool(self):
         P = self.mods.pool
@@ -95,7 +101,7 @@ class World(ControlWorld):
             avoid = set()
             if not closed:
                 avoid.add("until_closed")
-            cmd = gen_command(cls, rng, avoid=avoid)
+            cmd = gen_command(cls, rng, avoid=avoid, only=self.sc.get("only"))
             if cmd.name in ("gather_and_close", "flush"):
                 if cmd.name == "gather_and_close" and step < self.sc["n"] - 3 and rng.random() < 0.7:
                     continue
